@@ -127,9 +127,9 @@ Definition rho_o_candidates (r : rule) : list (list (bool * bool)) :=
          (assignments (r_nparams r)).
 
 Definition cells_of (r : rule) : list cell :=
+  let ros := rho_o_candidates r in
   flat_map (fun rho =>
-    flat_map (fun ro => [mkcell (r_name r) rho ro MSend; mkcell (r_name r) rho ro MSync])
-             (rho_o_candidates r))
+    flat_map (fun ro => [mkcell (r_name r) rho ro MSend; mkcell (r_name r) rho ro MSync]) ros)
     (assignments (r_nparams r)).
 
 Definition cell_applies (r : rule) (c : cell) : bool :=
@@ -139,8 +139,12 @@ Definition cell_adds (env : list adt) (r : rule) (c : cell) : bool :=
   cell_applies r c && adds env r (c_rho c) (c_rho_o c) (c_marker c).
 
 (* the decision the property theorem is about: every applicable cell that adds a marker is a listed known cell *)
+Definition cell_eqb_same_rule (a b : cell) : bool :=
+  list_eqb pair_eqb (c_rho a) (c_rho b) && list_eqb pair_eqb (c_rho_o a) (c_rho_o b) && marker_eqb (c_marker a) (c_marker b).
 Definition all_sound_but (env : list adt) (rules : list rule) (known : list cell) : bool :=
-  forallb (fun r => forallb (fun c => implb (cell_adds env r c) (existsb (cell_eqb c) known)) (cells_of r)) rules.
+  forallb (fun r =>
+     let kr := filter (fun k => String.eqb (c_rule k) (r_name r)) known in
+     forallb (fun c => implb (cell_adds env r c) (existsb (cell_eqb_same_rule c) kr)) (cells_of r)) rules.
 
 Definition all_known_add (env : list adt) (rules : list rule) (known : list cell) : bool :=
   forallb (fun k => existsb (fun r => String.eqb (r_name r) (c_rule k) && cell_adds env r k) rules) known.
@@ -153,9 +157,9 @@ Definition table (env : list adt) (rules : list rule) : list (list nat) :=
   flat_map (fun ir : nat * rule => let '(i, r) := ir in
      match r_opaquable r with
      | [] => map (fun rho =>
-               [i; b2n (bounds_ok r rho);
-                b2n (has env FUEL rho [] MSend (r_src r)); b2n (has env FUEL rho [] MSync (r_src r));
-                b2n (has env FUEL rho [] MSend (r_tgt r)); b2n (has env FUEL rho [] MSync (r_tgt r))]
-               ++ flat_map (fun p : bool * bool => [b2n (fst p); b2n (snd p)]) rho) (assignments (r_nparams r))
+               ([i; b2n (bounds_ok r rho);
+                 b2n (has env FUEL rho [] MSend (r_src r)); b2n (has env FUEL rho [] MSync (r_src r));
+                 b2n (has env FUEL rho [] MSend (r_tgt r)); b2n (has env FUEL rho [] MSync (r_tgt r))]
+                ++ flat_map (fun p : bool * bool => [b2n (fst p); b2n (snd p)]) rho)%list) (assignments (r_nparams r))
      | _ => []
-     end) (combine (seq 0 (length rules)) rules).
+     end) (combine (seq 0 (List.length rules)) rules).
